@@ -1989,6 +1989,8 @@ class OrderRowsNode(ViewRepresentation):
             if int(limit) != limit:
                 raise ValueError("limit must be an integer")
             limit = int(limit)
+            if limit < 0:
+                raise ValueError("limit must not be negative")
         self.limit = limit
         have = source.column_names
         unknown = set(self.order_columns) - set(have)
